@@ -170,7 +170,24 @@ func runProm(tt *testing.T, tape *simrt.Tape, keep bool) (out simrt.Outcome) {
 			fail("C20.register", "Register: %v", err)
 			return
 		}
-		w.Log.Addf("observers=%d results=%d labelsets=%d arms=%v", nobs, total, len(ref), arms)
+		// a second Metrics offered to the same registry, or the same one offered again: Register may refuse
+		// (it does today); where it returns nil, what is observed through that Metrics must be exported too
+		pms := []*prom.Metrics{pm}
+		switch tape.Choose(6) {
+		case 0:
+			pm2 := prom.NewMetrics()
+			if err := pm2.Register(reg); err == nil {
+				pms = append(pms, pm2)
+				stats["probe.second-metrics-accepted"]++
+			} else {
+				stats["probe.second-metrics-refused"]++
+			}
+		case 1:
+			if err := pm.Register(reg); err == nil {
+				stats["probe.re-register-accepted"]++
+			}
+		}
+		w.Log.Addf("observers=%d results=%d labelsets=%d arms=%v metrics=%d", nobs, total, len(ref), arms, len(pms))
 		sample = map[string]any{"observers": nobs, "results": total, "label_sets": len(ref), "armed_breakpoints": len(arms)}
 		w.Activate()
 		per := make([][]*vegeta.Result, nobs)
@@ -180,7 +197,7 @@ func runProm(tt *testing.T, tape *simrt.Tape, keep bool) (out simrt.Outcome) {
 			per[o] = append(per[o], r)
 		}
 		for o := 0; o < nobs; o++ {
-			go observer(pm, per[o], o)
+			go observer(pms[o%len(pms)], per[o], o)
 		}
 		go scraper(reg)
 		scrapes, lastRel := 0, -1
